@@ -45,9 +45,12 @@ class Rule :
                     return
 
             if hasattr(self, 'path_namespace'):
-                if (
-                    m.path is None
-                    or not m.path.startswith(self.path_namespace)
+                # the namespace itself or anything below it - not a sibling
+                # that merely shares the textual prefix (/a/bc vs /a/b)
+                ns = self.path_namespace
+                if m.path is None or not (
+                    m.path == ns
+                    or m.path.startswith(ns.rstrip('/') + '/')
                 ):
                     return
 
@@ -58,7 +61,18 @@ class Rule :
 
             if hasattr(self, 'arg_paths') and m.body is not None:
                 for idx, val in self.arg_paths:
-                    if idx >= len(m.body) or not m.body[idx].startswith(val):
+                    if idx >= len(m.body):
+                        return
+                    a = m.body[idx]
+                    if not isinstance(a, str):
+                        return
+                    # equal, or whichever of the two ends in '/' is a
+                    # prefix of the other
+                    if not (
+                        a == val
+                        or (val.endswith('/') and a.startswith(val))
+                        or (a.endswith('/') and val.startswith(a))
+                    ):
                         return
 
             # XXX arg0namespace -- Not quite sure how this one works
